@@ -183,6 +183,30 @@ static inline bool is_simple(const IPoly& p) {
     return true;
 }
 
+// narrowest feature: every vertex is at least `w` grid units away from every edge it is not an end of
+static inline bool feature_width_at_least(const IPoly& p, int64_t w) {
+    size_t n = p.size();
+    for (size_t i = 0; i < n; i++)
+        for (size_t j = 0; j < n; j++) {
+            size_t k = (j + 1) % n;
+            if (i == j || i == k) continue;
+            const IPt &v = p[i], &a = p[j], &b = p[k];
+            i128 dx = b.first - a.first, dy = b.second - a.second, vx = v.first - a.first, vy = v.second - a.second;
+            i128 t = vx * dx + vy * dy, L = dx * dx + dy * dy;
+            bool close;
+            if (t <= 0) close = vx * vx + vy * vy < (i128)w * w;
+            else if (t >= L) {
+                i128 ux = v.first - b.first, uy = v.second - b.second;
+                close = ux * ux + uy * uy < (i128)w * w;
+            } else {
+                i128 c = dx * vy - dy * vx;
+                close = c * c < (i128)w * w * L;
+            }
+            if (close) return false;
+        }
+    return true;
+}
+
 // ---------------------------------------------------------------- generators (grid integers)
 static inline IPoly g_rect(int64_t x0, int64_t y0, int64_t w, int64_t h) {
     return IPoly{{x0, y0}, {x0 + w, y0}, {x0 + w, y0 + h}, {x0, y0 + h}};
